@@ -39,11 +39,12 @@ type c27Cfg struct {
 	perChain  bool
 	chainMult int64
 	chain     string
+	dao, prop int64
 }
 
 func (p c27Cfg) String() string {
-	return fmt.Sprintf("rscal=%v floor=%d ceiling=%d(bins=%d,rem=%d) exponent=%d/100 weightMultiplier=%d/100 rttm=%d perChain=%v chain=%s chainMult=%d",
-		p.rscal, p.floor, p.ceiling, p.bins, p.ceiling%p.floor, p.expN, p.wmN, p.mult, p.perChain, p.chain, p.chainMult)
+	return fmt.Sprintf("rscal=%v floor=%d ceiling=%d(bins=%d,rem=%d) exponent=%d/100 weightMultiplier=%d/100 rttm=%d perChain=%v chain=%s chainMult=%d dao%%=%d proposer%%=%d",
+		p.rscal, p.floor, p.ceiling, p.bins, p.ceiling%p.floor, p.expN, p.wmN, p.mult, p.perChain, p.chain, p.chainMult, p.dao, p.prop)
 }
 
 func c27DrawCfg(rt *rapid.T) c27Cfg {
@@ -84,10 +85,20 @@ func c27DrawCfg(rt *rapid.T) c27Cfg {
 	} else {
 		p.wmN = rapid.Int64Range(1, 1000).Draw(rt, "wm")
 	}
-	if pick(rt, "multClass", 40, 60) == 0 {
+	switch pick(rt, "multClass", 30, 45, 25) {
+	case 0:
 		p.mult = 1000
-	} else {
+	case 1:
 		p.mult = rapid.Int64Range(1, 100000).Draw(rt, "mult")
+	default:
+		// tiny multipliers: consecutive relay counts give consecutive (or nearly consecutive) total rewards
+		p.mult = rapid.SampledFrom([]int64{1, 1, 2, 3, 7}).Draw(rt, "multSmall")
+	}
+	// DAO / proposer allocation (percent of every reward that goes to the fee collector): default 10/1 or generated, sum <= 100
+	p.dao, p.prop = 10, 1
+	if pick(rt, "allocClass", 60, 40) == 1 {
+		p.dao = int64(uniformN(rt, "dao", 61))
+		p.prop = int64(uniformN(rt, "prop", 41))
 	}
 	p.chain = "0001"
 	if pick(rt, "perChain", 70, 30) == 1 {
@@ -168,6 +179,11 @@ func (p c27Cfg) effBin(s int64) int64 {
 		s = p.ceiling
 	}
 	return s / p.floor
+}
+
+type c27Parts struct {
+	relays, stake    int64
+	total, node, fee *big.Int
 }
 
 type c27Eval struct {
@@ -268,12 +284,22 @@ func TestC27(t *testing.T) {
 			"value(stake > ceiling) == value(ceiling). non-trivial = RSCAL on and exponent > 0 (the stake matters) and two adjacent compared stakes fall in "+
 			"different bins, or a stake strictly above the ceiling is compared with the ceiling",
 		map[string]float64{"straddles-ceiling": 0.5, "straddles-bin-edge": 0.4, "burn-evaluated": 0.5, "burn-above-ceiling": 0.3,
-			"exponent-fractional": 0.3, "bins>=499": 0.05, "ceiling-not-multiple-of-floor": 0.2, "rscal-off": 0.04},
+			"exponent-fractional": 0.3, "bins>=499": 0.05, "ceiling-not-multiple-of-floor": 0.2, "rscal-off": 0.04, "consecutive-relay-counts": 0.3, "totals-differ-by-at-most-2": 0.04},
 		func(rt *rapid.T, c *harness.Case) {
 			p := c27DrawCfg(rt)
 			stakes := c27DrawStakes(rt, p)
 			r1 := c27DrawCount(rt, "relaysA", 1_000_000_000)
 			r2 := c27DrawCount(rt, "relaysB", 1_000_000_000)
+			switch pick(rt, "countPair", 50, 25, 25) {
+			case 1:
+				r2 = r1 + 1 // consecutive counts
+				c.Label("consecutive-relay-counts")
+			case 2:
+				// consecutive counts around a round number (where several percentage truncations step together)
+				r1 = rapid.SampledFrom([]int64{10, 20, 50, 100, 100, 1000}).Draw(rt, "roundUnit")*rapid.Int64Range(1, 50).Draw(rt, "roundK") - 1
+				r2 = r1 + 1
+				c.Label("consecutive-relay-counts")
+			}
 			if r1 > r2 {
 				r1, r2 = r2, r1
 			}
@@ -332,6 +358,7 @@ func TestC27(t *testing.T) {
 			}
 			np := poskeeper.DefaultNodesParams()
 			np.RelaysToTokensMultiplier = p.mult
+			np.DAOAllocation, np.ProposerAllocation = p.dao, p.prop
 			np.ServicerStakeFloorMultiplier = p.floor
 			np.ServicerStakeWeightCeiling = p.ceiling
 			np.ServicerStakeFloorMultiplierExponent = sdk.NewDecWithPrec(p.expN, 2)
@@ -359,6 +386,7 @@ func TestC27(t *testing.T) {
 
 			// ---- reward
 			rew := &c27Eval{fn: "reward", c: c, p: p, counts: [2]int64{r1, r2}, val: map[int64][2]*big.Int{}}
+			var parts []c27Parts
 			rewardTotal := func(chain string, relays, stake int64) (*big.Int, bool) {
 				var node, fee sdk.BigInt
 				if !timed("reward", fmt.Sprintf("CalculateRelayReward(chain=%q, relays=%d, stake=%d)", chain, relays, stake), func() {
@@ -369,7 +397,11 @@ func TestC27(t *testing.T) {
 				if node.IsNegative() || fee.IsNegative() {
 					c.Violation("C27/reward/negative-part", "CalculateRelayReward(relays=%d, stake=%d) = node %s, fees %s under %s", relays, stake, node, fee, p)
 				}
-				return new(big.Int).Add(bi(node), bi(fee)), true
+				tot := new(big.Int).Add(bi(node), bi(fee))
+				if chain == p.chain {
+					parts = append(parts, c27Parts{relays: relays, stake: stake, total: tot, node: bi(node), fee: bi(fee)})
+				}
+				return tot, true
 			}
 			for _, s := range stakes {
 				a, ok1 := rewardTotal(p.chain, r1, s)
@@ -384,6 +416,30 @@ func TestC27(t *testing.T) {
 			}
 			rew.relations(stakes)
 			c.AddExtra("reward_values_compared", 2*len(rew.val))
+			// the two parts of a reward (servicer side, fee-collector side) are each a non-decreasing function of the computed
+			// total under one parameter set: a larger total (more relays, more stake) never gives either side less, and equal
+			// totals give equal parts. (Stated over totals so that it is independent of how the total depends on the stake.)
+			sort.SliceStable(parts, func(i, j int) bool { return parts[i].total.Cmp(parts[j].total) < 0 })
+			for i := 1; i < len(parts); i++ {
+				a, b := parts[i-1], parts[i]
+				if b.total.Cmp(a.total) == 0 && (a.node.Cmp(b.node) != 0 || a.fee.Cmp(b.fee) != 0) {
+					c.Violation("C27/reward/equal-totals-split-differently", "total %s is split node %s + fees %s for (relays=%d, stake=%d) but node %s + fees %s for (relays=%d, stake=%d) under %s",
+						a.total, a.node, a.fee, a.relays, a.stake, b.node, b.fee, b.relays, b.stake, p)
+				}
+				if b.total.Cmp(a.total) > 0 {
+					if new(big.Int).Sub(b.total, a.total).Cmp(big.NewInt(2)) <= 0 {
+						c.Label("totals-differ-by-at-most-2")
+					}
+					if b.node.Cmp(a.node) < 0 {
+						c.Violation("C27/reward/servicer-part-decreases-when-total-increases", "(relays=%d, stake=%d): total %s -> servicer part %s; (relays=%d, stake=%d): larger total %s -> smaller servicer part %s under %s",
+							a.relays, a.stake, a.total, a.node, b.relays, b.stake, b.total, b.node, p)
+					}
+					if b.fee.Cmp(a.fee) < 0 {
+						c.Violation("C27/reward/fee-part-decreases-when-total-increases", "(relays=%d, stake=%d): total %s -> fee part %s; (relays=%d, stake=%d): larger total %s -> smaller fee part %s under %s",
+							a.relays, a.stake, a.total, a.fee, b.relays, b.stake, b.total, b.fee, p)
+					}
+				}
+			}
 
 			// ---- burn (default multiplier only; weight <= max(1, bins) bounds the coins so that the stake never caps the burn)
 			w := p.bins
